@@ -1026,6 +1026,27 @@ impl Exec {
         let parent_stored = snap.get_block_header(&v.parent_hash()).is_some();
         let model = self.w.header_verdict(b, self.now);
         self.il.write_u64(0x4800 + verdict.is_ok() as u64);
+        // submit_block checks the header against the PUBLISHED snapshot, which is replaced only when
+        // the tip changes: ancestors on a side branch that were stored since then are visible to it
+        // only if some other reader happened to put their headers into the shared cache. When one of
+        // the ancestors inside the median-time window is in neither, the node computes the median
+        // over what is left of the window.
+        let window_truncated = {
+            let mut cur = self.w.blocks[b].parent;
+            let mut missing = false;
+            for _ in 0..self.w.cfg.median_count {
+                let Some(k) = cur else { break };
+                if k != 0 && snap.get_block_header(&self.w.blocks[k].view.hash()).is_none() {
+                    missing = true;
+                    break;
+                }
+                cur = self.w.blocks[k].parent;
+            }
+            missing && parent_stored
+        };
+        if window_truncated {
+            self.res.probes.inc("header_stage_median_window_not_in_published_snapshot");
+        }
         match verdict {
             Err(e) => {
                 self.ev(&format!("header stage refuses {} : {}", b, e));
@@ -1039,6 +1060,10 @@ impl Exec {
                 match model {
                     Ok(()) => {
                         let d = format!("block #{b} (n={}) meets every header rule at clock {} but was refused: {e}", self.w.blocks[b].number, self.now);
+                        if window_truncated && e.contains("Timestamp") {
+                            self.viol("C03", "header_stage_refuses_valid_header:median_over_truncated_window", d);
+                            return false;
+                        }
                         self.viol("C03", "header_stage_refuses_valid_header", d.clone());
                         if e.contains("Pow") || e.contains("Nonce") {
                             self.viol("C07", "pow_refuses_hash_within_target", d);
@@ -1055,6 +1080,10 @@ impl Exec {
                 if let Err(kind) = model {
                     if matches!(kind, "pow" | "number" | "ts_too_old" | "ts_too_new") {
                         let d = format!("block #{b} (n={}) breaks the header rule `{kind}` at clock {} but passed the header check", self.w.blocks[b].number, self.now);
+                        if window_truncated && kind == "ts_too_old" {
+                            self.viol("C03", "header_stage_accepts_invalid_header:ts_too_old:median_over_truncated_window", d);
+                            return false;
+                        }
                         self.viol("C03", &format!("header_stage_accepts_invalid_header:{kind}"), d.clone());
                         if kind == "pow" {
                             self.viol("C07", "pow_accepts_hash_above_target", d);
@@ -1181,7 +1210,11 @@ impl Exec {
             // how the node must see the parent
             let parent_invalid = p != 0 && (chain_bad.contains(&p) || matches!(state_of(self, p), Some(Ann::Marked(_))));
             // (a locally mined block is known from the store as soon as the chain service has taken it)
-            let parent_known = p == 0 || state_of(self, p) == Some(Ann::Accepted) || (self.sc.miner_blocks.contains(&p) && self.delivered_set.contains(&p));
+            // (a locally mined parent counts once its verification has recorded its total difficulty:
+            // before that the header of a child cannot be indexed and is simply not taken yet)
+            let parent_known = p == 0
+                || state_of(self, p) == Some(Ann::Accepted)
+                || (self.sc.miner_blocks.contains(&p) && self.delivered_set.contains(&p) && self.node.shared.store().get_block_ext(&self.w.blocks[p].view.hash()).is_some());
             self.il.write_u64(0x4900 + seen.valid as u64);
             let what: String;
             if before == Some(Ann::Accepted) && !held_invalid {
